@@ -220,5 +220,58 @@ def prvKeyFromTweak (bSpend tweak : Int) : R Int :=
   else if (bSpend + tweak) % o.n = 0 then .error .value
   else .ok ((bSpend + tweak) % o.n)
 
+
+/-! ## BIP375: the PSBT roles (`psbt/silent_payments.py`) derive the outputs from ECDH shares -/
+
+/-- the per-input shares `aᵢ•B_scan` of the eligible inputs, as `set_input_share` writes them — a LIST:
+two inputs locked to one key contribute two equal shares, and both count -/
+def inputShares (keys : List (Int × Bool)) (Bscan : α) : List α :=
+  keys.map fun k => o.mul (spInputKey o k.1 k.2) Bscan
+
+/-- the scalar of `set_global_share`: the signer's keys summed modulo n -/
+def globalScalar : List (Int × Bool) → Int → Int
+  | [], t => t
+  | k :: rest, t => globalScalar rest ((t + spInputKey o k.1 k.2) % o.n)
+
+/-- `_share_and_sum`'s share for one scan key: the global one, else the sum of the per-input ones -/
+def shareOf (useGlobal : Bool) (keys : List (Int × Bool)) (Bscan : α) : R α :=
+  if useGlobal then
+    (if globalScalar o keys 0 = 0 then .error .value else .ok (o.mul (globalScalar o keys 0) Bscan))
+  else pubKeySum o (inputShares o keys Bscan)
+
+/-- number of earlier outputs with the same scan key (`counters[scan_key]`) -/
+def countScan (Bs : α) : List (α × α) → Nat
+  | [] => 0
+  | r :: rest => (if o.eq r.1 Bs then 1 else 0) + countScan Bs rest
+
+/-- `output_scripts`: walk the outputs in index order, `k` counted per scan key -/
+def psbtWalk (useGlobal : Bool) (keys : List (Int × Bool)) (h : Int) : List (α × α) → List (α × α) → R (List Bytes)
+  | _, [] => .ok []
+  | before, r :: rest =>
+    match shareOf o useGlobal keys r.1 with
+    | .error e => .error e
+    | .ok share =>
+      match outputKey o H (o.mul h share) r.2 (countScan o r.1 before) with
+      | .error e => .error e
+      | .ok x =>
+        match psbtWalk useGlobal keys h (before ++ [r]) rest with
+        | .error e => .error e
+        | .ok xs => .ok (x :: xs)
+
+/-- the taproot output keys the BIP375 roles write (`set_*_share` … `set_output_scripts`), in output order -/
+def psbtOutputKeys (useGlobal : Bool) (keys : List (Int × Bool)) (outpoints : List Bytes)
+    (recips : List (α × α)) : R (List Bytes) :=
+  if keys.any (fun k => !(scalarOk o k.1)) then .error .value else
+  match pubKeySum o (keys.map fun k => (if k.2 && !(evenY o (o.mul k.1 o.gen)) then o.neg (o.mul k.1 o.gen)
+                                       else o.mul k.1 o.gen)) with
+  | .error e => .error e
+  | .ok A =>
+    match lowestOutpoint outpoints with
+    | .error e => .error e
+    | .ok lowest =>
+      match inputHash o H lowest A with
+      | .error e => .error e
+      | .ok h => psbtWalk o H useGlobal keys h [] recips
+
 end
 end Btc.C16
